@@ -75,14 +75,21 @@ Hypothesis Hps : forall n p, In n nodes -> In p nodes -> (In p (preds n) <-> In 
 Hypothesis HB : forall n, (length (succs n) <= B)%nat.
 
 (* the entry points are the nodes without predecessor (as _doms and _post_doms compute them) *)
-Definition entries : list name := dentries nodes preds.
+Variable entries : list name.
+Hypothesis Hents : forall n, In n entries <-> In n nodes /\ preds n = [].
 
 Lemma entries_spec n : In n entries <-> In n nodes /\ preds n = [].
+Proof. apply Hents. Qed.
+
+Lemma dentries_spec n : In n (dentries nodes preds) <-> In n nodes /\ preds n = [].
 Proof.
-  unfold entries, dentries. rewrite filter_In. split; intros [H1 H2]; split; auto.
+  unfold dentries. rewrite filter_In. split; intros [H1 H2]; split; auto.
   - destruct (preds n); [reflexivity|discriminate].
   - rewrite H2. reflexivity.
 Qed.
+
+Lemma dentries_entries n : In n (dentries nodes preds) <-> In n entries.
+Proof. rewrite dentries_spec, entries_spec. tauto. Qed.
 
 Notation Dom := (Dominates nodes succs preds).
 
@@ -308,7 +315,7 @@ Proof.
   - intros e He. rewrite Hget. apply zmem_In in He. rewrite He. reflexivity.
   - intros a m Ha Hm Hd. rewrite Hget. destruct (zmem m entries) eqn:Eme.
     + apply zmem_In in Eme. destruct Hd as [->|Hd]; [left; reflexivity|].
-      destruct (Z.eq_dec m a) as [->|Hma]; [left; reflexivity|]. exfalso. apply (Hd m Eme Hma). constructor.
+      destruct (Z.eq_dec m a) as [->|Hma]; [left; reflexivity|]. exfalso. apply (Hd m (proj2 (dentries_entries m) Eme) Hma). constructor.
     + apply zmem_In in Hm. rewrite Hm. apply zsort_In. exact Ha.
 Qed.
 
@@ -329,7 +336,7 @@ Proof.
       { intros Hi. apply entries_spec in Hi as [_ Hi]. rewrite Hi in Hpz. destruct Hpz. }
       destruct (iW _ _ HI z Hzn Hze (fun H => H) a Hin) as [E|[_ H2]]; [congruence|].
       apply (Hya Hne). apply H2. exact Hpz. }
-  destruct (Hgen e m Hr He Hea) as [_ H]. apply H; [congruence|exact Ha].
+  destruct (Hgen e m Hr (proj1 (dentries_entries e) He) Hea) as [_ H]. apply H; [congruence|exact Ha].
 Qed.
 
 (* the work-list computes the dominance relation: for every order in which the successor sets are
@@ -364,28 +371,33 @@ Proof.
   revert Hr. apply Reach_ext. intros x y. unfold sx_avoid. destruct (Z.eqb x a); [tauto|]. apply H.
 Qed.
 
-Theorem find_dominators_order_independent nodes preds succs1 succs2 B1 B2 fuel1 fuel2 :
+Theorem find_dominators_order_independent nodes preds succs1 succs2 ents1 ents2 B1 B2 fuel1 fuel2 :
   NoDup nodes ->
   (forall n, In n nodes -> incl (preds n) nodes) ->
   (forall n, In n nodes -> incl (succs1 n) nodes) ->
   (forall n p, In n nodes -> In p nodes -> (In p (preds n) <-> In n (succs1 p))) ->
   (forall x y, In y (succs1 x) <-> In y (succs2 x)) ->          (* the same sets, enumerated in any order *)
+  (forall n, In n ents1 <-> In n nodes /\ preds n = []) ->     (* the entry points, in any two orders *)
+  (forall n, In n ents2 <-> In n nodes /\ preds n = []) ->
   (forall n, (length (succs1 n) <= B1)%nat) -> (forall n, (length (succs2 n) <= B2)%nat) ->
-  entries nodes preds <> [] ->
-  (mu nodes B1 (init_D nodes (entries nodes preds)) (init_stk nodes (entries nodes preds)) < fuel1)%nat ->
-  (mu nodes B2 (init_D nodes (entries nodes preds)) (init_stk nodes (entries nodes preds)) < fuel2)%nat ->
+  ents1 <> [] ->
+  (mu nodes B1 (init_D nodes ents1) (init_stk nodes ents1) < fuel1)%nat ->
+  (mu nodes B2 (init_D nodes ents2) (init_stk nodes ents2) < fuel2)%nat ->
   exists D1 l1 D2 l2,
-    find_dominators nodes (entries nodes preds) preds succs1 fuel1 = WOk D1 l1 /\
-    find_dominators nodes (entries nodes preds) preds succs2 fuel2 = WOk D2 l2 /\
+    find_dominators nodes ents1 preds succs1 fuel1 = WOk D1 l1 /\
+    find_dominators nodes ents2 preds succs2 fuel2 = WOk D2 l2 /\
     forall m, In m nodes -> dget D1 m = dget D2 m.
 Proof.
-  intros Hnd Hp Hs1 Hps1 Hperm HB1 HB2 Hne Hf1 Hf2.
+  intros Hnd Hp Hs1 Hps1 Hperm He1 He2 HB1 HB2 Hne Hf1 Hf2.
   assert (Hs2 : forall n, In n nodes -> incl (succs2 n) nodes).
   { intros n Hn y Hy. apply (Hs1 n Hn). apply Hperm. exact Hy. }
   assert (Hps2 : forall n p, In n nodes -> In p nodes -> (In p (preds n) <-> In n (succs2 p))).
   { intros n p Hn Hpn. rewrite <- Hperm. apply Hps1; auto. }
-  destruct (find_dominators_correct nodes preds succs1 B1 Hnd Hp Hs1 Hps1 HB1 fuel1 Hne Hf1) as [D1 [l1 [E1 C1]]].
-  destruct (find_dominators_correct nodes preds succs2 B2 Hnd Hp Hs2 Hps2 HB2 fuel2 Hne Hf2) as [D2 [l2 [E2 C2]]].
+  assert (Hne2 : ents2 <> []).
+  { destruct ents1 as [|e r]; [congruence|]. intros E. assert (Hi : In e ents2) by (apply He2; apply He1; left; reflexivity).
+    rewrite E in Hi. destruct Hi. }
+  destruct (find_dominators_correct nodes preds succs1 B1 Hnd Hp Hs1 Hps1 HB1 ents1 He1 fuel1 Hne Hf1) as [D1 [l1 [E1 C1]]].
+  destruct (find_dominators_correct nodes preds succs2 B2 Hnd Hp Hs2 Hps2 HB2 ents2 He2 fuel2 Hne2 Hf2) as [D2 [l2 [E2 C2]]].
   exists D1, l1, D2, l2. split; [exact E1|]. split; [exact E2|]. intros m Hm.
   destruct (C1 m Hm) as [S1 M1]. destruct (C2 m Hm) as [S2 M2].
   apply sorted_ext; auto. intros a. rewrite M1, M2. split; intros [Ha Hd]; (split; [exact Ha|]).
